@@ -89,7 +89,7 @@ class StateTriggerDecorator(TriggerDecorator, ExpressionDecorator, AutoKwargsDec
     state_check_now: bool | None
     __test_handshake__: list[str] | None
 
-    notify_q: asyncio.Queue
+    notify_q: asyncio.Queue | None = None
     in_wait_until_function: bool
     cycle_task: asyncio.Task = None
 
@@ -325,4 +325,6 @@ class StateTriggerDecorator(TriggerDecorator, ExpressionDecorator, AutoKwargsDec
         await super().stop()
         if self.cycle_task is not None:
             self.cycle_task.cancel()
-        State.notify_del(self.state_trig_ident, self.notify_q)
+        if self.notify_q is not None:
+            # (it was never started if its manager is stopped while still starting)
+            State.notify_del(self.state_trig_ident, self.notify_q)
